@@ -48,7 +48,8 @@ def step (line : String) : String :=
     else if cl.startsWith "ClientAbort" then "reply=1 origin_closed=1"
     else "reply=1 client_closed=1"
   | ["PAR", _, _] => "ok"
-  | ["CH", _, _, _, _] => "ok"      -- handover_exact on both hops + relay fidelity
+  | ["CH", _, _, _, _] => "ok"
+  | ["SP", _, _, _, _] => "ok"      -- the same theorems; TLS records and QUIC streams are transports (not modelled)      -- handover_exact on both hops + relay fidelity
   | _ => "bad-op"
 
 partial def loop (h : IO.FS.Stream) (out : IO.FS.Stream) : IO Unit := do
